@@ -314,32 +314,10 @@ def r5_reductions(repo: Repo, rep):
                     # model evaluated on the batch's own input, target is the batch's own output
                     good = good and _batch_index(l) != _batch_index(rr)
                 rep.check(R, good, cd.site(p.ret_node), cd.fq, "|model(batch input) - batch target|", dump(r)[:140], dump(r)[:140])
-        fw = ci.methods.get("forward")
-        if fw is None or "use_full_dataset" not in ast.unparse(fw.node):
-            continue
-        rep.saw(fw)
-        for p in paths(fw.node):
-            if p.ret is RAISE:
-                continue
-            full = [pol for g, pol, k in p.guards if dump(g) == "self.use_full_dataset"]
-            if not full or full[0]:
-                continue  # the full-data-set aggregation is C16's R-C16-4
-            inf = [pol for g, pol, k in p.guards if dump(g).replace('"', "'") == "self.norm == 'inf'"]
-            root = [pol for g, pol, k in p.guards if dump(g) == "self.root != 1.0"]
-            core = p.ret
-            if root and root[0]:
-                if isinstance(core, ast.BinOp) and isinstance(core.op, ast.Pow) and dump(core.right).replace(" ", "") in ("1/self.root", "1.0/self.root"):
-                    core = core.left
-                else:
-                    rep.violation(R, fw.site(p.ret_node), fw.fq, "root applied last: loss ** (1/root)", dump(p.ret)[:100], dump(p.ret)[:100])
-                    continue
-            t = dump(core)
-            if inf and inf[0]:
-                good = t.startswith("torch.max(self._compute_dist(") and t.count("_compute_dist") == 1
-                rep.check(R, good, fw.site(p.ret_node), fw.fq, "inf-norm: max of the distances", t[:100], t[:100])
-            else:
-                good = t.startswith("torch.mean(self._compute_dist(") and t.endswith("** self.norm)") and t.count("_compute_dist") == 1
-                rep.check(R, good, fw.site(p.ret_node), fw.fq, "p-norm: mean(dist ** norm)", t[:100], t[:100])
+    from .c16 import data_loss_rules
+    R2 = rep.rule("R-C04-5b", "data conditions over the full data set: max / mean of per-batch means, root applied last", floor=3,
+                  why="the documented norm of model-minus-target over the data set")
+    data_loss_rules(repo, rep, R2, R)
 
 
 def _batch_index(e):
